@@ -11,7 +11,7 @@ from penman.tree import Tree
 
 from pv.gen import graphs, models, trees
 from pv.gen.base import pick
-from pv.harness import Hyp, tmpdir
+from pv.harness import Enum, Hyp, tmpdir
 from pv.props.common import fmt, short
 from pv.ref import cli, graphm, interp
 from pv.ref.role import build_model, build_table, roles_for
@@ -253,8 +253,30 @@ def _tool_cases(draw):
             'subprocess': draw(st.integers(0, 49)) == 0}
 
 
+def _chain_chunks(tier):
+    return [{'n': n, 'shape': sh} for n in ((300, 1200) if tier == 'quick' else (300, 1200, 3000, 10000)) for sh in ('chain', 'reverse-chain', 'star', 'two-chains')]
+
+
+def _chain_cases(ch):
+    n, sh = ch['n'], ch['shape']
+    vs = ['n%d' % i for i in range(n)]
+    ts = [[v, ':instance', 'c'] for v in vs]
+    if sh == 'chain':
+        ts += [[vs[i], ':ARG0', vs[i + 1]] for i in range(n - 1)]
+    elif sh == 'reverse-chain':
+        ts += [[vs[i + 1], ':ARG0', vs[i]] for i in range(n - 1)]
+    elif sh == 'star':
+        ts += [[vs[0], ':op%d' % i, vs[i]] for i in range(1, n)]
+    else:
+        h = n // 2
+        ts += [[vs[i], ':ARG0', vs[i + 1]] for i in range(h - 1)] + [[vs[i], ':ARG1', vs[i + 1]] for i in range(h, n - 1)]
+    yield {'k': 'lib', 'triples': ts, 'top': vs[0], 'model': {'name': 'amr'}}
+    yield {'k': 'lib', 'triples': list(reversed(ts)), 'top': vs[0], 'model': {'name': 'default'}}
+
+
 def stages(tier):
     return [
+        Enum('long-chains', _chain_chunks, _chain_cases, 'chains, reversed chains, stars and two disconnected chains of 300 / 1200 (thorough: up to 10000) nodes built through the Graph API'),
         Hyp('library-lists', _lib_cases, 5000, 300000),
         Hyp('decoded-graphs', _decoded_cases, 1500, 60000),
         Hyp('tool', _tool_cases, 1500, 40000),
